@@ -51,6 +51,14 @@ def exit_path_programs(n=5000):
         "list_literal": ("", "[1, pass(%s)]"),
         "infix": ("", "1 + pass(%s)"),
     }
+    # the exception may also be raised in the frame of the try itself, with operands of the expression already evaluated
+    callees.update({
+        "same_frame_member": ("let t = \"x\";", "1 + (2 * t.parse_int()) + %s"),
+        "same_frame_unwrap": ("let o: ?int = none;", "[1, 2, o.unwrap() + %s]"),
+        "same_frame_throw": ("", "pass(1) + { throw(\"t\"); %s }"),
+        "same_frame_index": ("let l = [1];", "l[0] + l[0] * { throw(\"t\"); %s }"),
+        "same_frame_arrow": ("let c = new { ? };", "pass(3) - { let q: int = c~>missing; q + %s }"),
+    })
     exits = {"throw_in_argument": "fail(i)", "throw_in_body_of_argument": "deep(3, i)", "throw_in_second_argument_position": "pass(1) + fail(i)"}
     out = []
     for cn, (pre, call) in callees.items():
